@@ -64,6 +64,8 @@ func init() {
 			{ID: "C03-R32", Title: "the frame table is tested before a call takes the next frame", Floor: 1, Run: theFrameTableIsTestedBeforeItGrows},
 			{ID: "C03-R33", Title: "the record of a walk over containers goes through the types that wrap them", Floor: 8, Run: theVisitRecordGoesThroughWrappers},
 			{ID: "C03-R34", Title: "nesting counters of the VM are kept on every path", Floor: 1, Run: nestingCountersAreKeptOnEveryPath},
+			{ID: "C03-R35", Title: "levels added in a loop stay counted", Floor: 1, Run: levelsAddedInALoopStayCounted},
+			{ID: "C03-R36", Title: "parse results are not asserted blind", Floor: 1, Run: parseResultsAreNotAssertedBlind},
 		},
 	})
 }
